@@ -192,7 +192,7 @@ class err_handler(object):
         """
         """
         #pdb.set_trace()
-        if not self.seg_node_added:
+        if not self.seg_node_added and self.cur_st_node is not None:
             self.cur_st_node.children.append(self.cur_seg_node)
             self.seg_node_added = True
 
